@@ -6,7 +6,8 @@ What it adds to heap mode (everything else is the unmodified translator):
 
  K1 CHECKED UNBOXING of a key read back out of the store.  A local / parameter listed under the method spec's
     `key_locals` has the static key type (`κ` / `Option κ`); an assignment `x = E` to it whose right-hand side is a chain
-    of constant subscripts rooted at a declared `Val` attribute (`self.root[PREV][KEY]`, after H4) becomes
+    of constant subscripts rooted at a declared `Val` attribute or at a local (`self.root[PREV][KEY]`, after H4;
+    `root = self.root; root[PREV][KEY]`) becomes
     `x = %c01.unbox_key(E)`, translated to the partial operation `PyRtC01.unboxKey? E`: a `Val.key k` is `k`; any other
     object (None, a sentinel, a cell, a value object, an int) is outside the static typing of the translation and yields
     `PyExc.Other` - the outcome no handler catches (like `Val.is?` on two unmodelled identities); the tie theorems show
@@ -18,7 +19,7 @@ What it adds to heap mode (everything else is the unmodified translator):
 
  K2 `raise KeyError(<string literal> % <pure expression>)` -> `raise KeyError`: the message is not part of a `PyExc`
     (exceptions are compared by class); the argument expression is dropped only when it is a `%`-format of a constant
-    string with `type(self)` / `self.__class__.__name__` (attribute reads that cannot raise and have no effect).
+    string with `type(self)` / `self.__class__` / their `.__name__` (reads that cannot raise and have no effect).
 """
 from __future__ import annotations
 
@@ -48,6 +49,8 @@ def _pure_name_expr(node, self_name):
         return True
     if isinstance(node, ast.Attribute) and node.attr == '__name__':
         node = node.value
+        if _pure_name_expr(node, self_name):
+            return True
     return isinstance(node, ast.Attribute) and node.attr == '__class__' and isinstance(node.value, ast.Name) \
         and node.value.id == self_name
 
@@ -66,8 +69,10 @@ def prepass(fdef, tree, spec, notes):
         if keys and isinstance(st, ast.Assign) and len(st.targets) == 1 and isinstance(st.targets[0], ast.Name) \
                 and st.targets[0].id in keys:
             root = _const_chain_root(st.value)
-            if root is not None and py2lean_heap._is_self_attr(root, self_name, state) \
-                    and str(state[root.attr]) == 'Val':
+            # (the root is `self.root` or a local holding it: the operation itself insists on a `Val` argument)
+            if root is not None and ((py2lean_heap._is_self_attr(root, self_name, state)
+                                      and str(state[root.attr]) == 'Val')
+                                     or (isinstance(root, ast.Name) and root.id != self_name and root.id not in keys)):
                 st.value = ast.copy_location(ast.Call(func=ast.Name(id=OP + 'unbox_key', ctx=ast.Load()),
                                                       args=[st.value], keywords=[]), st.value)
                 notes.add('K1 checked unboxing of %s' % st.targets[0].id)
